@@ -580,9 +580,10 @@ func TestC13_PlanChange(t *testing.T) {
 		if err != nil {
 			t.Fatal(err)
 		}
+		src := "a"
 		do := func(plan string, n int64) bool {
 			req := httptest.NewRequest("GET", "http://x/", nil)
-			req.Header.Set("X-Src", "a")
+			req.Header.Set("X-Src", src)
 			req.Header.Set("X-Amt", strconv.FormatInt(n, 10))
 			req.Header.Set("X-Plan", plan)
 			before := served
@@ -618,6 +619,15 @@ func TestC13_PlanChange(t *testing.T) {
 		}
 		if do("b", 1) && planB.Tau() > 0 {
 			t.Fatalf("source moved to plan %v: after a request of the full burst one more unit was admitted at the same instant", planB)
+		}
+		// another source, never seen before, is still on plan A: what happened to the first source's
+		// plan is none of its business - its full burst is there, one unit more is not
+		src = "z"
+		if !do("a", burstA) {
+			t.Fatalf("after another source was moved from plan %v to plan %v, a source never seen before (plan %v) had a request of its full burst (%d) refused", planA, planB, planA, burstA)
+		}
+		if do("a", 1) && planA.Tau() > 0 {
+			t.Fatalf("after another source was moved from plan %v to plan %v, a source never seen before (plan %v) was admitted one unit beyond its full burst at the same instant", planA, planB, planA)
 		}
 		vstat.Case(fmt.Sprintf("planchange|%v|%v|%d", planA, planB, spent), burstB != burstA || avgA != avgB, []string{"plan-changed-while-idle"}, map[string]any{"planA": fmt.Sprint(planA), "planB": fmt.Sprint(planB), "idle": idle.String()})
 	})
